@@ -69,6 +69,16 @@ func init() {
 		c.Cov.Bound["TotalRows"] = fmt.Sprint(trs)
 		c.Cov.Bound["instances"] = len(fam.Insts)
 		BFS(c, fam, 0)
+		// the partial-forest family (every Remember subset, Verify(remember), Ingest, Prune, Undo,
+		// from-roots) under the C01 collector: roots and leaf count after every transition
+		np := pick(c, 4, 5)
+		c.Cov.Bound["partial_family.Nmax"] = np
+		for _, tr := range pick(c, []uint8{0, 63}, []uint8{0, 2, 3, 63}) {
+			if c.Expired() {
+				break
+			}
+			BFS(c, &PartialFamily{Nmax: np, TR: tr, UndoBud: 1, FRBud: 1, Junk: true, SetLimit: 2, Prop: "C09", Collect: "C01"}, 0)
+		}
 		if c.Thorough() {
 			tallFamily(c, "C01")
 		}
